@@ -442,9 +442,9 @@ HARNESSES = [
     Harness("C17.bounds", bounds, functions=_F1, assumptions=_A1,
             bounds={"phases": "2-3 (4 phases: the two Hashin-Shtrikman orderings stay undecided at 300 s per obligation, so 4 is NOT claimed)",
                     "elements": "1-2", "orderings": "3 phases: one parameter set per ordering of the phase mobilities, all 6 enumerated"},
-            opts={"fold_ite": True, "ob_timeout": 60.0}, budget={"quick": 400.0, "thorough": 1500.0},
+            opts={"fold_ite": True, "ob_timeout": 60.0}, budget={"quick": 400.0, "thorough": 2400.0},
             params={"quick": [{"p": 2, "e": 1}, {"p": 2, "e": 2}] + [{"p": 3, "e": 1, "order": list(q), "_opts": {"ob_timeout": 150.0}} for q in itertools.permutations(range(3))],
-                    "thorough": [{"p": 3, "e": 2, "order": [list(q), list(q2)], "_opts": {"ob_timeout": 300.0}}
+                    "thorough": [{"p": 3, "e": 2, "order": [list(q), list(q2)], "_opts": {"ob_timeout": 600.0}}
                                  for q in itertools.permutations(range(3)) for q2 in itertools.permutations(range(3))]}),
     Harness("C17.perm", perm, functions=_F1, assumptions=_A1, bounds={"phases": "2-3", "elements": "1-2"},
             opts={"fold_ite": True, "ob_timeout": 30.0}, budget={"quick": 120.0, "thorough": 900.0},
